@@ -33,6 +33,8 @@ type c03Case struct {
 	// Traffic > 0: the request under test is number Traffic of the long traffic sequence (suite.go), served after all
 	// the earlier ones on the same middleware
 	Traffic int `json:"traffic_position,omitempty"`
+	// Route12: the middleware is brought up through construction route 12 (in-place edited Config resubmitted)
+	Route12 bool `json:"route12,omitempty"`
 }
 
 var safelistedResponseHeaders = map[string]bool{"cache-control": true, "content-language": true, "content-length": true, "content-type": true, "expires": true, "last-modified": true, "pragma": true}
@@ -189,6 +191,11 @@ func c03Judge(k c03Case) *vlib.Failure {
 	if err != nil {
 		return vlib.Failf("configuration of the C03 alphabet rejected: %v", err)
 	}
+	if k.Route12 {
+		if m, err = buildVia(12, first, false); err != nil {
+			return vlib.Failf("configuration of the C03 alphabet rejected through route 12: %v", err)
+		}
+	}
 	scribbleConfig(&cfg0)
 	scribbleConfig(m.Config())
 	m.SetDebug(k.Debug)
@@ -307,6 +314,11 @@ func checkC03(c *vlib.Ctx) (string, string) {
 		for d := 0; d < 2; d++ {
 			cfg0 := l.Config()
 			m, err := cors.NewMiddleware(cfg0)
+			if err == nil && len(bs)%2 == 0 {
+				// every other configuration reaches the middleware the long way: one Config value that first held
+				// placeholders, is edited in place and resubmitted (route 12, see suite.go)
+				m, err = buildVia(12, l, false)
+			}
 			if err != nil {
 				ck.Report(c03Case{Cfg: l}, vlib.Failf("configuration of the C03 alphabet rejected: %v", err))
 				return levelMC, rule
@@ -328,7 +340,7 @@ func checkC03(c *vlib.Ctx) (string, string) {
 					c.Nontrivial.Add(1)
 				}
 				if f := c03Invariants(bs[bi].lit, req, rec.H, rec.Status); f != nil {
-					k := c03Case{Cfg: bs[bi].lit, Debug: d == 1, Req: req}
+					k := c03Case{Cfg: bs[bi].lit, Debug: d == 1, Req: req, Route12: bi%2 == 0}
 					if jf := vlib.Guard(func() *vlib.Failure { return c03Judge(k) }); jf != nil {
 						ck.Report(k, jf)
 					} else {
